@@ -1,6 +1,6 @@
 (* Executable model of libstrophe's XEP-0198 stream-management bookkeeping (definitions only, no proofs).
 
-   Mirrors, with the fixes fixes/C04-1..5.patch and fixes/C05-1.patch applied:
+   Mirrors, with the fixes fixes/C04-1..4.patch and fixes/C05-1.patch applied:
      src/event.c  xmpp_run_once, send phase (write loop, numbering sm_h = sm_sent_nr++, move to the SM queue)
      src/conn.c   _send_raw / send_raw / send_stanza (queueing, the <r/> piggy-back, r_sent), _conn_sm_handle_stanza
                   (<r/>, <a h>, inbound count), _handle_stream_stanza, _handle_stream_end, conn_disconnect,
@@ -77,59 +77,56 @@ Record state := mk_state {
   sm_bound : bool;
   bind_saved : bool;
   next_gid : Z;
-  nconn : Z;
-  crashed : bool
+  nconn : Z
 }.
 
 Definition set_connected (s : state) (v : bool) : state :=
-  mk_state v (neg_done s) (h_feat s) (h_bind s) (h_sm s) (sm_enabled s) (sm_support s) (can_resume s) (resume s) (dont_req s) (r_sent s) (sent_nr s) (handled_nr s) (sq s) (smq s) (sm_id s) (previd s) (bound s) (sm_bound s) (bind_saved s) (next_gid s) (nconn s) (crashed s).
+  mk_state v (neg_done s) (h_feat s) (h_bind s) (h_sm s) (sm_enabled s) (sm_support s) (can_resume s) (resume s) (dont_req s) (r_sent s) (sent_nr s) (handled_nr s) (sq s) (smq s) (sm_id s) (previd s) (bound s) (sm_bound s) (bind_saved s) (next_gid s) (nconn s).
 Definition set_neg_done (s : state) (v : bool) : state :=
-  mk_state (connected s) v (h_feat s) (h_bind s) (h_sm s) (sm_enabled s) (sm_support s) (can_resume s) (resume s) (dont_req s) (r_sent s) (sent_nr s) (handled_nr s) (sq s) (smq s) (sm_id s) (previd s) (bound s) (sm_bound s) (bind_saved s) (next_gid s) (nconn s) (crashed s).
+  mk_state (connected s) v (h_feat s) (h_bind s) (h_sm s) (sm_enabled s) (sm_support s) (can_resume s) (resume s) (dont_req s) (r_sent s) (sent_nr s) (handled_nr s) (sq s) (smq s) (sm_id s) (previd s) (bound s) (sm_bound s) (bind_saved s) (next_gid s) (nconn s).
 Definition set_h_feat (s : state) (v : bool) : state :=
-  mk_state (connected s) (neg_done s) v (h_bind s) (h_sm s) (sm_enabled s) (sm_support s) (can_resume s) (resume s) (dont_req s) (r_sent s) (sent_nr s) (handled_nr s) (sq s) (smq s) (sm_id s) (previd s) (bound s) (sm_bound s) (bind_saved s) (next_gid s) (nconn s) (crashed s).
+  mk_state (connected s) (neg_done s) v (h_bind s) (h_sm s) (sm_enabled s) (sm_support s) (can_resume s) (resume s) (dont_req s) (r_sent s) (sent_nr s) (handled_nr s) (sq s) (smq s) (sm_id s) (previd s) (bound s) (sm_bound s) (bind_saved s) (next_gid s) (nconn s).
 Definition set_h_bind (s : state) (v : bool) : state :=
-  mk_state (connected s) (neg_done s) (h_feat s) v (h_sm s) (sm_enabled s) (sm_support s) (can_resume s) (resume s) (dont_req s) (r_sent s) (sent_nr s) (handled_nr s) (sq s) (smq s) (sm_id s) (previd s) (bound s) (sm_bound s) (bind_saved s) (next_gid s) (nconn s) (crashed s).
+  mk_state (connected s) (neg_done s) (h_feat s) v (h_sm s) (sm_enabled s) (sm_support s) (can_resume s) (resume s) (dont_req s) (r_sent s) (sent_nr s) (handled_nr s) (sq s) (smq s) (sm_id s) (previd s) (bound s) (sm_bound s) (bind_saved s) (next_gid s) (nconn s).
 Definition set_h_sm (s : state) (v : bool) : state :=
-  mk_state (connected s) (neg_done s) (h_feat s) (h_bind s) v (sm_enabled s) (sm_support s) (can_resume s) (resume s) (dont_req s) (r_sent s) (sent_nr s) (handled_nr s) (sq s) (smq s) (sm_id s) (previd s) (bound s) (sm_bound s) (bind_saved s) (next_gid s) (nconn s) (crashed s).
+  mk_state (connected s) (neg_done s) (h_feat s) (h_bind s) v (sm_enabled s) (sm_support s) (can_resume s) (resume s) (dont_req s) (r_sent s) (sent_nr s) (handled_nr s) (sq s) (smq s) (sm_id s) (previd s) (bound s) (sm_bound s) (bind_saved s) (next_gid s) (nconn s).
 Definition set_sm_enabled (s : state) (v : bool) : state :=
-  mk_state (connected s) (neg_done s) (h_feat s) (h_bind s) (h_sm s) v (sm_support s) (can_resume s) (resume s) (dont_req s) (r_sent s) (sent_nr s) (handled_nr s) (sq s) (smq s) (sm_id s) (previd s) (bound s) (sm_bound s) (bind_saved s) (next_gid s) (nconn s) (crashed s).
+  mk_state (connected s) (neg_done s) (h_feat s) (h_bind s) (h_sm s) v (sm_support s) (can_resume s) (resume s) (dont_req s) (r_sent s) (sent_nr s) (handled_nr s) (sq s) (smq s) (sm_id s) (previd s) (bound s) (sm_bound s) (bind_saved s) (next_gid s) (nconn s).
 Definition set_sm_support (s : state) (v : bool) : state :=
-  mk_state (connected s) (neg_done s) (h_feat s) (h_bind s) (h_sm s) (sm_enabled s) v (can_resume s) (resume s) (dont_req s) (r_sent s) (sent_nr s) (handled_nr s) (sq s) (smq s) (sm_id s) (previd s) (bound s) (sm_bound s) (bind_saved s) (next_gid s) (nconn s) (crashed s).
+  mk_state (connected s) (neg_done s) (h_feat s) (h_bind s) (h_sm s) (sm_enabled s) v (can_resume s) (resume s) (dont_req s) (r_sent s) (sent_nr s) (handled_nr s) (sq s) (smq s) (sm_id s) (previd s) (bound s) (sm_bound s) (bind_saved s) (next_gid s) (nconn s).
 Definition set_can_resume (s : state) (v : bool) : state :=
-  mk_state (connected s) (neg_done s) (h_feat s) (h_bind s) (h_sm s) (sm_enabled s) (sm_support s) v (resume s) (dont_req s) (r_sent s) (sent_nr s) (handled_nr s) (sq s) (smq s) (sm_id s) (previd s) (bound s) (sm_bound s) (bind_saved s) (next_gid s) (nconn s) (crashed s).
+  mk_state (connected s) (neg_done s) (h_feat s) (h_bind s) (h_sm s) (sm_enabled s) (sm_support s) v (resume s) (dont_req s) (r_sent s) (sent_nr s) (handled_nr s) (sq s) (smq s) (sm_id s) (previd s) (bound s) (sm_bound s) (bind_saved s) (next_gid s) (nconn s).
 Definition set_resume (s : state) (v : bool) : state :=
-  mk_state (connected s) (neg_done s) (h_feat s) (h_bind s) (h_sm s) (sm_enabled s) (sm_support s) (can_resume s) v (dont_req s) (r_sent s) (sent_nr s) (handled_nr s) (sq s) (smq s) (sm_id s) (previd s) (bound s) (sm_bound s) (bind_saved s) (next_gid s) (nconn s) (crashed s).
+  mk_state (connected s) (neg_done s) (h_feat s) (h_bind s) (h_sm s) (sm_enabled s) (sm_support s) (can_resume s) v (dont_req s) (r_sent s) (sent_nr s) (handled_nr s) (sq s) (smq s) (sm_id s) (previd s) (bound s) (sm_bound s) (bind_saved s) (next_gid s) (nconn s).
 Definition set_dont_req (s : state) (v : bool) : state :=
-  mk_state (connected s) (neg_done s) (h_feat s) (h_bind s) (h_sm s) (sm_enabled s) (sm_support s) (can_resume s) (resume s) v (r_sent s) (sent_nr s) (handled_nr s) (sq s) (smq s) (sm_id s) (previd s) (bound s) (sm_bound s) (bind_saved s) (next_gid s) (nconn s) (crashed s).
+  mk_state (connected s) (neg_done s) (h_feat s) (h_bind s) (h_sm s) (sm_enabled s) (sm_support s) (can_resume s) (resume s) v (r_sent s) (sent_nr s) (handled_nr s) (sq s) (smq s) (sm_id s) (previd s) (bound s) (sm_bound s) (bind_saved s) (next_gid s) (nconn s).
 Definition set_r_sent (s : state) (v : bool) : state :=
-  mk_state (connected s) (neg_done s) (h_feat s) (h_bind s) (h_sm s) (sm_enabled s) (sm_support s) (can_resume s) (resume s) (dont_req s) v (sent_nr s) (handled_nr s) (sq s) (smq s) (sm_id s) (previd s) (bound s) (sm_bound s) (bind_saved s) (next_gid s) (nconn s) (crashed s).
+  mk_state (connected s) (neg_done s) (h_feat s) (h_bind s) (h_sm s) (sm_enabled s) (sm_support s) (can_resume s) (resume s) (dont_req s) v (sent_nr s) (handled_nr s) (sq s) (smq s) (sm_id s) (previd s) (bound s) (sm_bound s) (bind_saved s) (next_gid s) (nconn s).
 Definition set_sent_nr (s : state) (v : Z) : state :=
-  mk_state (connected s) (neg_done s) (h_feat s) (h_bind s) (h_sm s) (sm_enabled s) (sm_support s) (can_resume s) (resume s) (dont_req s) (r_sent s) v (handled_nr s) (sq s) (smq s) (sm_id s) (previd s) (bound s) (sm_bound s) (bind_saved s) (next_gid s) (nconn s) (crashed s).
+  mk_state (connected s) (neg_done s) (h_feat s) (h_bind s) (h_sm s) (sm_enabled s) (sm_support s) (can_resume s) (resume s) (dont_req s) (r_sent s) v (handled_nr s) (sq s) (smq s) (sm_id s) (previd s) (bound s) (sm_bound s) (bind_saved s) (next_gid s) (nconn s).
 Definition set_handled_nr (s : state) (v : Z) : state :=
-  mk_state (connected s) (neg_done s) (h_feat s) (h_bind s) (h_sm s) (sm_enabled s) (sm_support s) (can_resume s) (resume s) (dont_req s) (r_sent s) (sent_nr s) v (sq s) (smq s) (sm_id s) (previd s) (bound s) (sm_bound s) (bind_saved s) (next_gid s) (nconn s) (crashed s).
+  mk_state (connected s) (neg_done s) (h_feat s) (h_bind s) (h_sm s) (sm_enabled s) (sm_support s) (can_resume s) (resume s) (dont_req s) (r_sent s) (sent_nr s) v (sq s) (smq s) (sm_id s) (previd s) (bound s) (sm_bound s) (bind_saved s) (next_gid s) (nconn s).
 Definition set_sq (s : state) (v : list sqe) : state :=
-  mk_state (connected s) (neg_done s) (h_feat s) (h_bind s) (h_sm s) (sm_enabled s) (sm_support s) (can_resume s) (resume s) (dont_req s) (r_sent s) (sent_nr s) (handled_nr s) v (smq s) (sm_id s) (previd s) (bound s) (sm_bound s) (bind_saved s) (next_gid s) (nconn s) (crashed s).
+  mk_state (connected s) (neg_done s) (h_feat s) (h_bind s) (h_sm s) (sm_enabled s) (sm_support s) (can_resume s) (resume s) (dont_req s) (r_sent s) (sent_nr s) (handled_nr s) v (smq s) (sm_id s) (previd s) (bound s) (sm_bound s) (bind_saved s) (next_gid s) (nconn s).
 Definition set_smq (s : state) (v : list sme) : state :=
-  mk_state (connected s) (neg_done s) (h_feat s) (h_bind s) (h_sm s) (sm_enabled s) (sm_support s) (can_resume s) (resume s) (dont_req s) (r_sent s) (sent_nr s) (handled_nr s) (sq s) v (sm_id s) (previd s) (bound s) (sm_bound s) (bind_saved s) (next_gid s) (nconn s) (crashed s).
+  mk_state (connected s) (neg_done s) (h_feat s) (h_bind s) (h_sm s) (sm_enabled s) (sm_support s) (can_resume s) (resume s) (dont_req s) (r_sent s) (sent_nr s) (handled_nr s) (sq s) v (sm_id s) (previd s) (bound s) (sm_bound s) (bind_saved s) (next_gid s) (nconn s).
 Definition set_sm_id (s : state) (v : option (list Z)) : state :=
-  mk_state (connected s) (neg_done s) (h_feat s) (h_bind s) (h_sm s) (sm_enabled s) (sm_support s) (can_resume s) (resume s) (dont_req s) (r_sent s) (sent_nr s) (handled_nr s) (sq s) (smq s) v (previd s) (bound s) (sm_bound s) (bind_saved s) (next_gid s) (nconn s) (crashed s).
+  mk_state (connected s) (neg_done s) (h_feat s) (h_bind s) (h_sm s) (sm_enabled s) (sm_support s) (can_resume s) (resume s) (dont_req s) (r_sent s) (sent_nr s) (handled_nr s) (sq s) (smq s) v (previd s) (bound s) (sm_bound s) (bind_saved s) (next_gid s) (nconn s).
 Definition set_previd (s : state) (v : option (list Z)) : state :=
-  mk_state (connected s) (neg_done s) (h_feat s) (h_bind s) (h_sm s) (sm_enabled s) (sm_support s) (can_resume s) (resume s) (dont_req s) (r_sent s) (sent_nr s) (handled_nr s) (sq s) (smq s) (sm_id s) v (bound s) (sm_bound s) (bind_saved s) (next_gid s) (nconn s) (crashed s).
+  mk_state (connected s) (neg_done s) (h_feat s) (h_bind s) (h_sm s) (sm_enabled s) (sm_support s) (can_resume s) (resume s) (dont_req s) (r_sent s) (sent_nr s) (handled_nr s) (sq s) (smq s) (sm_id s) v (bound s) (sm_bound s) (bind_saved s) (next_gid s) (nconn s).
 Definition set_bound (s : state) (v : bool) : state :=
-  mk_state (connected s) (neg_done s) (h_feat s) (h_bind s) (h_sm s) (sm_enabled s) (sm_support s) (can_resume s) (resume s) (dont_req s) (r_sent s) (sent_nr s) (handled_nr s) (sq s) (smq s) (sm_id s) (previd s) v (sm_bound s) (bind_saved s) (next_gid s) (nconn s) (crashed s).
+  mk_state (connected s) (neg_done s) (h_feat s) (h_bind s) (h_sm s) (sm_enabled s) (sm_support s) (can_resume s) (resume s) (dont_req s) (r_sent s) (sent_nr s) (handled_nr s) (sq s) (smq s) (sm_id s) (previd s) v (sm_bound s) (bind_saved s) (next_gid s) (nconn s).
 Definition set_sm_bound (s : state) (v : bool) : state :=
-  mk_state (connected s) (neg_done s) (h_feat s) (h_bind s) (h_sm s) (sm_enabled s) (sm_support s) (can_resume s) (resume s) (dont_req s) (r_sent s) (sent_nr s) (handled_nr s) (sq s) (smq s) (sm_id s) (previd s) (bound s) v (bind_saved s) (next_gid s) (nconn s) (crashed s).
+  mk_state (connected s) (neg_done s) (h_feat s) (h_bind s) (h_sm s) (sm_enabled s) (sm_support s) (can_resume s) (resume s) (dont_req s) (r_sent s) (sent_nr s) (handled_nr s) (sq s) (smq s) (sm_id s) (previd s) (bound s) v (bind_saved s) (next_gid s) (nconn s).
 Definition set_bind_saved (s : state) (v : bool) : state :=
-  mk_state (connected s) (neg_done s) (h_feat s) (h_bind s) (h_sm s) (sm_enabled s) (sm_support s) (can_resume s) (resume s) (dont_req s) (r_sent s) (sent_nr s) (handled_nr s) (sq s) (smq s) (sm_id s) (previd s) (bound s) (sm_bound s) v (next_gid s) (nconn s) (crashed s).
+  mk_state (connected s) (neg_done s) (h_feat s) (h_bind s) (h_sm s) (sm_enabled s) (sm_support s) (can_resume s) (resume s) (dont_req s) (r_sent s) (sent_nr s) (handled_nr s) (sq s) (smq s) (sm_id s) (previd s) (bound s) (sm_bound s) v (next_gid s) (nconn s).
 Definition set_next_gid (s : state) (v : Z) : state :=
-  mk_state (connected s) (neg_done s) (h_feat s) (h_bind s) (h_sm s) (sm_enabled s) (sm_support s) (can_resume s) (resume s) (dont_req s) (r_sent s) (sent_nr s) (handled_nr s) (sq s) (smq s) (sm_id s) (previd s) (bound s) (sm_bound s) (bind_saved s) v (nconn s) (crashed s).
+  mk_state (connected s) (neg_done s) (h_feat s) (h_bind s) (h_sm s) (sm_enabled s) (sm_support s) (can_resume s) (resume s) (dont_req s) (r_sent s) (sent_nr s) (handled_nr s) (sq s) (smq s) (sm_id s) (previd s) (bound s) (sm_bound s) (bind_saved s) v (nconn s).
 Definition set_nconn (s : state) (v : Z) : state :=
-  mk_state (connected s) (neg_done s) (h_feat s) (h_bind s) (h_sm s) (sm_enabled s) (sm_support s) (can_resume s) (resume s) (dont_req s) (r_sent s) (sent_nr s) (handled_nr s) (sq s) (smq s) (sm_id s) (previd s) (bound s) (sm_bound s) (bind_saved s) (next_gid s) v (crashed s).
-Definition set_crashed (s : state) (v : bool) : state :=
-  mk_state (connected s) (neg_done s) (h_feat s) (h_bind s) (h_sm s) (sm_enabled s) (sm_support s) (can_resume s) (resume s) (dont_req s) (r_sent s) (sent_nr s) (handled_nr s) (sq s) (smq s) (sm_id s) (previd s) (bound s) (sm_bound s) (bind_saved s) (next_gid s) (nconn s) v.
+  mk_state (connected s) (neg_done s) (h_feat s) (h_bind s) (h_sm s) (sm_enabled s) (sm_support s) (can_resume s) (resume s) (dont_req s) (r_sent s) (sent_nr s) (handled_nr s) (sq s) (smq s) (sm_id s) (previd s) (bound s) (sm_bound s) (bind_saved s) (next_gid s) v.
 
 Definition init : state :=
-  mk_state false false false false false  false false false false false false  0 0 [] []  None None false false false  1 0 false.
+  mk_state false false false false false  false false false false false false  0 0 [] []  None None false false false  1 0.
 
 (* ---------------------------------------------------------------- outputs *)
 Record blob := mk_blob { b_sent : Z; b_handled : Z; b_id : list Z; b_sq : list (list Z); b_smq : list (Z * list Z) }.
@@ -257,7 +254,7 @@ Fixpoint wloop (q : list sqe) (sched : list sitem) (st : state) : state * list o
   end.
 
 Definition write_phase (st : state) (sched : list sitem) : state * list out * list sitem :=
-  if connected st && negb (crashed st) then
+  if connected st then
     let '(st1, o, err, sl) := wloop (sq st) sched st in
     if err then let '(st2, o2) := disconnect st1 in (st2, o ++ o2, sl) else (st1, o, sl)
   else (st, [], sched).
@@ -362,7 +359,7 @@ Definition handle_sm (bind_text : list Z) (st : state) (el : smel) : state * lis
       | None => sm_err st
       | Some p =>
           match previd st with
-          | None => (set_crashed st true, [])         (* strcmp(previd, NULL) *)
+          | None => sm_err st
           | Some mine =>
               if list_eqb p mine then
                 match h with
@@ -380,6 +377,7 @@ Definition handle_sm (bind_text : list Z) (st : state) (el : smel) : state * lis
           end
       end
   | SmFailed cause h =>
+      let resuming := resume st in
       let st := set_sm_enabled st false in
       match cause with
       | FNone => sm_err st
@@ -398,8 +396,8 @@ Definition handle_sm (bind_text : list Z) (st : state) (el : smel) : state * lis
           let st2 := reset_sm_state st1 in
           let '(st3, o) :=
             if had_bind then do_bind bind_text st2
-            else if bound st2 then neg_success st2                                  (* C04-5 *)
-            else xmpp_disconnect st2 in
+            else if resuming then xmpp_disconnect st2
+            else neg_success st2 in
           (set_sm_enabled st3 false, OG (GRelease (map s_gid rel)) :: OG GFailed :: o ++ [cb st3; OG GSmOff])
       end
   | _ => (set_sm_enabled st false, [cb st; OG GSmOff])
@@ -454,15 +452,15 @@ Definition mark_in (it : initem) : list out :=
 
 (* _handle_stream_stanza *)
 Definition dispatch (bind_text : list Z) (st : state) (it : initem) : state * list out :=
-  if negb (connected st) || crashed st then (st, []) else
+  if negb (connected st) then (st, []) else
   let '(st1, o1) := fire bind_text st it in
-  let '(st2, o2) := if sm_enabled st1 && negb (crashed st1) then sm_handle st1 it else (st1, []) in
+  let '(st2, o2) := if sm_enabled st1 then sm_handle st1 it else (st1, []) in
   (st2, o1 ++ mark_in it ++ o2).
 
 (* ---------------------------------------------------------------- connect *)
 (* xmpp_connect_client on a disconnected object: _conn_reset, then everything up to the second stream start *)
 Definition do_connect (st : state) : state * list out :=
-  if connected st || crashed st then (st, []) else
+  if connected st then (st, []) else
   let cs := filter (fun e => countable (q_owner e)) (sq st) in
   let fresh := map q_gid (filter (fun e => negb (q_resend e)) cs) in
   let resent := map q_gid (filter q_resend cs) in
@@ -486,8 +484,8 @@ Definition step (bind_text : list Z) (st : state) (a : action) : state * list ou
   | ASend t => user_send st t
   | AWrite s => let '(st1, o, _) := write_phase st s in (st1, o)
   | AIn it => dispatch bind_text st it
-  | AEnd => if connected st && negb (crashed st) then stream_end st else (st, [])
-  | ALoss => if crashed st then (st, []) else disconnect st
+  | AEnd => if connected st then stream_end st else (st, [])
+  | ALoss => disconnect st
   | AConnect => do_connect st
   end.
 
